@@ -1,6 +1,7 @@
 package trie
 
 import (
+	"sort"
 	"strings"
 	"fmt"
 	"math/bits"
@@ -64,8 +65,24 @@ func nodeKinds(c *lp.Ctx) {
 // (pooled creators, counters, caches) must not leak into the next build.
 func refusedBuild(c *lp.Ctx) {
 	if c.Rng.Intn(2) == 0 {
+		// many inner nodes of many shapes are added (breadth first) before the builder reaches the pair with the
+		// over-long run, which sits deep below the LAST branch
 		run := strings.Repeat("x", 40000)
-		keys := []string{"aa", "ab", "ac", "ad1", "ad2", "b" + run + "1", "b" + run + "2", "c", "ca", "cb"}
+		m := map[string]struct{}{"zzzz" + run + "1": {}, "zzzz" + run + "2": {}, "zzz0": {}, "zz1": {}, "z2": {}}
+		al := []byte("abcdefgh")
+		for i := 0; i < 60+c.Rng.Intn(200); i++ {
+			l := 2 + c.Rng.Intn(3)
+			b := make([]byte, l)
+			for j := range b {
+				b[j] = al[c.Rng.Intn(2+c.Rng.Intn(len(al)-1))]
+			}
+			m[string(b)] = struct{}{}
+		}
+		keys := make([]string, 0, len(m))
+		for k := range m {
+			keys = append(keys, k)
+		}
+		sort.Strings(keys)
 		line := "trie.new ffff none"
 		for _, k := range keys {
 			line += " " + lp.XS(k)
